@@ -1,6 +1,7 @@
 open BinNums
 open BinPos
 open Datatypes
+open Decimal
 
 module N =
  struct
@@ -38,6 +39,15 @@ module N =
           | Pos.IsPos p -> Npos p
           | _ -> N0))
 
+  (** val mul : coq_N -> coq_N -> coq_N **)
+
+  let mul n m =
+    match n with
+    | N0 -> N0
+    | Npos p -> (match m with
+                 | N0 -> N0
+                 | Npos q -> Npos (Pos.mul p q))
+
   (** val compare : coq_N -> coq_N -> comparison **)
 
   let compare n m =
@@ -66,6 +76,13 @@ module N =
     match compare x y with
     | Gt -> false
     | _ -> true
+
+  (** val ltb : coq_N -> coq_N -> bool **)
+
+  let ltb x y =
+    match compare x y with
+    | Lt -> true
+    | _ -> false
 
   (** val pos_div_eucl : positive -> coq_N -> coq_N * coq_N **)
 
@@ -100,6 +117,18 @@ module N =
 
   let modulo a b =
     snd (div_eucl a b)
+
+  (** val of_nat : nat -> coq_N **)
+
+  let of_nat = function
+  | O -> N0
+  | S n' -> Npos (Pos.of_succ_nat n')
+
+  (** val to_uint : coq_N -> uint **)
+
+  let to_uint = function
+  | N0 -> D0 Nil
+  | Npos p -> Pos.to_uint p
 
   (** val eq_dec : coq_N -> coq_N -> bool **)
 
